@@ -26,6 +26,8 @@ mod grammar;
 mod rt;
 #[path = "../../common/race.rs"]
 mod race;
+#[path = "../../common/xt.rs"]
+mod xt;
 
 /// Configuration-specific part of C18: the scanner products, whose every feed/poll/reset runs in
 /// an allocation-counting region, explored to their fixpoints with all oracles off.
@@ -78,6 +80,14 @@ pub fn c18_extra(chk: &Check, _tier: Tier, heavy: &std::sync::atomic::AtomicU64)
 }
 
 use xs::{Check, Tier};
+
+/// Cross-target transcript of this (native, hooked) build, for the foreign-target parts to match.
+fn record_xt(chk: &Check, id: &str) {
+    if let Some((h, calls)) = xt::transcript(id) {
+        chk.add_eval(calls);
+        chk.set("cross_target_transcript", serde_json::json!({"hash": format!("{:016x}", h), "calls": calls, "what": "hash over every result of a fixed exhaustive family of small histories / boundary inputs (common/xt.rs); the parts run under Miri for i686 and s390x must reproduce it"}));
+    }
+}
 
 #[global_allocator]
 static ALLOC: xs::alloc::Counting = xs::alloc::Counting;
@@ -166,16 +176,19 @@ fn main() {
         "C07" => {
             let chk = Check::new("C07", PART, tier, "model_checking");
             cc14::run_c07(&chk, tier);
+            record_xt(&chk, "C07");
             chk.finish()
         }
         "C08" => {
             let chk = Check::new("C08", PART, tier, "model_checking");
             cc14::run_c08(&chk, tier);
+            record_xt(&chk, "C08");
             chk.finish()
         }
         "C09" => {
             let chk = Check::new("C09", PART, tier, "exploration");
             nrpn::run_c09(&chk, tier);
+            record_xt(&chk, "C09");
             race::race_probe(&chk, "C09", if tier == Tier::Thorough { 400 } else { 40 });
             chk.finish()
         }
@@ -187,6 +200,7 @@ fn main() {
         "C11" => {
             let chk = Check::new("C11", PART, tier, "model_checking");
             nrpn::run_c11(&chk, tier);
+            record_xt(&chk, "C11");
             chk.finish()
         }
         "C12" => {
@@ -197,6 +211,7 @@ fn main() {
         "C13" => {
             let chk = Check::new("C13", PART, tier, "model_checking");
             polling::run_c13(&chk, tier);
+            record_xt(&chk, "C13");
             chk.finish()
         }
         "C14" => {
